@@ -34,11 +34,14 @@ Service(d, o) ==
 \* the request envelope: a document [name, kids | text]
 Leaf(ns, local, text) == [name |-> <<ns, local>>, text |-> text, kids |-> <<>>]
 Node(ns, local, kids) == [name |-> <<ns, local>>, text |-> "", kids |-> kids]
+\* the namespace of the rpc wrapper element is the one the soap:body extension NAMES (d.bodyNs = "other": another one than
+\* the target namespace of the definitions)
+BodyNs(d) == IF d.bodyNs = "other" THEN "urn:svc:body" ELSE d.tns
 RequestBody(d, o) ==
   IF EffStyle(d, o) = "rpc"
   THEN \* the operation wrapper in the soap:body namespace, one accessor per message part in part order,
        \* accessors unqualified; a part of a complex type holds that type's (qualified) local elements
-       Node(d.tns, o.name, << Leaf("", "a", "7") >>
+       Node(BodyNs(d), o.name, << Leaf("", "a", "7") >>
                            \o (IF o.nparts = 2 THEN << Leaf("", "b", "s") >> ELSE <<>>)
                            \o (IF o.complexPart THEN << Node("", "c", << Leaf(d.tns, "x", "7"), Leaf(d.tns, "y", "s") >>) >> ELSE <<>>))
   ELSE \* document/literal: the part's element itself
